@@ -192,3 +192,13 @@ package postgresql
 //@   ensures null-preserved: (data == nil) <==> (unbox(v, *pgBoundValue).data == nil)
 //@   ensures copied: len(unbox(v, *pgBoundValue).data) == len(data) && forall(i, 0, len(data), unbox(v, *pgBoundValue).data[i] == data[i])
 //@   ensures fresh-copy: data != nil ==> fresh(unbox(v, *pgBoundValue).data)
+
+// Wiring (C15): when poison callbacks are configured the poison detector is registered on the envelope detector, and it
+// is registered before the decrypting handler (callbacks of one envelope run in registration order).
+//@ func (factory *proxyFactory) New(clientID []byte, clientSession base.ClientSession) (proxy base.Proxy, err error)
+//@   props C15
+//@   noinline *
+//@   ensures decryptor-registered-last: err == nil ==> called(EnvelopeDetector.AddCallback#1)
+//@   at call EnvelopeDetector.AddCallback#0 : assert typeis(arg[0], crypto.PoisonRecordDetector) && !called(EnvelopeDetector.AddCallback#1)
+//@   at call EnvelopeDetector.AddCallback#1 : assert typeis(arg[0], crypto.DecryptHandler) && (called(EnvelopeDetector.AddCallback#0) || !(ret(ProxySetting.PoisonRecordCallbackStorage#0)[0] != nil && ret(PoisonRecordCallbackStorage.HasCallbacks)[0]))
+//@   at call crypto.NewPoisonRecordsRecognizer : assert ret(PoisonRecordCallbackStorage.HasCallbacks)[0]
